@@ -138,9 +138,31 @@ def gen_cases(ctx, n, repaired):
             has_str = any(x != "" and numq(x) is None for x in xs)
             if f in MOMENTS and has_str and not repaired and arg[0] in ("arr", "map"):
                 f = rng.choice(["sum", "mean", "sum2", "mode", "maxlen"])      # the unrepaired binary stops the process: see the probe
+            if profile == "ints" and f in ("sum2", "sum3", "sum4", "variance", "stddev", "meaneb", "skewness", "kurtosis", "var", "mean"):
+                # the wide ints (up to 2^61) are there for the exact integer sum; their squares/cubes are not representable in binary64 and
+                # pairs like -(2^60+3), 2^60+7 cancel: outside the domain in which float64 is tied to the exact model
+                def small(v):
+                    return v if v == "" or abs(int(v)) <= 1000 else str(int(v) % 1999 - 999)
+                xs = [small(x) for x in xs]
+                arg = ("arr", xs) if arg[0] == "arr" else ("map", [(k, small(v)) for k, v in arg[1]]) if arg[0] == "map" else arg
             call = ("stat", f)
         elif kind == "sort":
             call = ("sort",)
+            # numerically equal elements written differently (4 and 4.0): their relative order in the result depends on the
+            # sorting algorithm (sort.Slice is not stable) and is not a value: keep the first of each numeric value
+            seen = set()
+
+            def first_of_value(v):
+                q = numq(v)
+                if q is None:
+                    return True
+                dup = q in seen
+                seen.add(q)
+                return not dup
+            if arg[0] == "arr":
+                arg = ("arr", [x for x in arg[1] if first_of_value(x)])
+            elif arg[0] == "map":
+                arg = ("map", [(k, v) for k, v in arg[1] if first_of_value(v)])
         else:
             opts = gen_opts(rng)
             fl = opts_flags(opts)
@@ -436,7 +458,7 @@ def oracle_diff(exp, typ, obs):
 def probe_moment_string(ctx):
     """variance/stddev/meaneb/skewness/kurtosis on a collection holding a string: the unrepaired code stops the whole process
     ('Internal coding error detected at file stats.go'); repaired: an error value, like sum and mean"""
-    st, out, err = mlr_run(ctx, ["-n", "put", 'end{print variance(["abc"]); print kurtosis([1,"x",3]); print "after"}'], b"", timeout=30)
+    st, out, err = mlr_run(ctx, ["-n", "put", 'end{print variance(["abc"]); print kurtosis([1,"x",3]); print "after"}'], b"", timeout=300)
     ctx.count(("probe", "moment-string"))
     ok = st == 0 and out.decode("utf-8", "replace").split() == ["(error)", "(error)", "after"]
     ctx.cov.setdefault("probes", {})["variance([\"abc\"])"] = "ok" if ok else "exit %s: %s" % (st, (out + err).decode("utf-8", "replace")[:120])
